@@ -29,8 +29,32 @@ def lib(path):
 
 # --------------------------------------------------------------------------- bundles ----
 
+# entry points cheap enough for the rare >= 1000-particle trajectory (size thresholds, large files)
+HUGE_OK = {"Nnearests", "cutoffneighbors", "cutoffneighbors_particletype", "read_neighbors", "spatial_average", "cal_neighbors",
+           "convert_configuration", "get_input", "Dynamics.init", "LogDynamics.init", "cage_relative", "time_correlation",
+           "participation_ratio", "local_vector_alignment", "phase_quotient", "divergence_curl", "q8_tetrahedral", "remove_pbc",
+           "stub.mk_dump", "packing_capability_2d", "boo_2d.init", "time_average", "triangle_area", "write_dump_header",
+           "write_data_header", "vibrability", "moment_of_inertia"}
+
+
 def gen_mk_snaps(w, rng):
     sw = w.swarm
+    parents = [e for n, e in sorted(w.pool.items()) if e.kind == "snaps" and e.tag.get("base") and not e.tag.get("reader")
+               and e.tag["T"] >= 2]
+    if parents and rng.random() < (0.7 if sw.get("huge") and any(e.tag.get("huge") for e in parents) else 0.2):
+        # a trajectory branched from an existing one: same first frame, same everything else,
+        # different continuation (what restarts and parameter scans produce)
+        big = [e for e in parents if e.tag.get("huge")]
+        rec = dict(rng.choice(big if big and sw.get("huge") else parents).tag["recipe"])
+        rec["branch"] = rng.randrange(1 << 30)
+        w.ctx.probe("branched_trajectory")
+        return {"op": "mk_snaps", "recipe": rec}
+    if sw.get("huge") and not any(e.tag.get("huge") for e in w.pool.values() if e.kind == "snaps"):
+        rec = {"ndim": rng.choice([2, 3]), "cell": "ortho", "centred": rng.random() < 0.3, "intbounds": False,
+               "N": rng.randint(1000, 1300), "T": 2, "K": rng.randint(1, 2), "steps": "lin",
+               "mask": None, "huge": True, "subseed": rng.randrange(1 << 40)}
+        rec["mask"] = [1] * rec["ndim"]
+        return {"op": "mk_snaps", "recipe": rec}
     ndim = rng.choice([2, 3])
     K = rng.choice([1, 1, 2, 2, 2, 3, 4, 5])
     N = rng.randint(max(7, K + 2), max(8, sw["maxN"]))
@@ -81,8 +105,17 @@ def build_bundle(rec):
         steps = [0] + [int(50 * 2 ** k + k) for k in range(T - 1)]
     s0 = rng.random((N, ndim))
     xu = [s0 @ h + origin]
+    rng_steps = np.random.default_rng(rec["branch"]) if "branch" in rec else rng
     for _t in range(1, T):
-        xu.append(xu[-1] + rng.normal(0, 0.12, size=(N, ndim)))
+        xu.append(xu[-1] + rng_steps.normal(0, 0.12, size=(N, ndim)))
+    if rec.get("huge"):
+        L = L * (N / 12.0) ** (1.0 / ndim)        # keep the density of the small systems
+        h = np.diag(L)
+        bounds = np.column_stack((origin, origin + L))
+        if rec["centred"]:
+            origin = -0.5 * L
+            bounds = np.column_stack((origin, origin + L))
+        xu = [(s0 @ h + origin)] + [(s0 @ h + origin) + rng_steps.normal(0, 0.12, size=(N, ndim)) * (t + 1) ** 0.5 for t in range(T - 1)]
 
     def wrap(p):
         s = np.linalg.solve(h.T, (p - origin).T).T
@@ -100,7 +133,7 @@ def build_bundle(rec):
 
     meta = {"ndim": ndim, "N": N, "T": T, "K": K, "cell": rec["cell"], "centred": bool(rec["centred"]),
             "mask": list(rec["mask"]), "lin": rec["steps"] == "lin" or T <= 2, "Lmin": float(L.min()),
-            "allper": all(rec["mask"]), "steps": steps}
+            "allper": all(rec["mask"]), "steps": steps, "huge": bool(rec.get("huge")), "recipe": dict(rec)}
     out = [("", "snaps", mk([wrap(p) for p in xu]), dict(meta, base=True, coord="x")),
            (".xu", "snaps", mk(xu), dict(meta, base=False, coord="xu"))]
     if ndim == 2:
@@ -156,8 +189,9 @@ def build_bundle(rec):
 # ----------------------------------------------------------------------- pool queries ----
 
 def bases(w, pred=None):
+    big = getattr(w, "cur_adapter", None) in HUGE_OK
     return sorted(n for n, e in w.pool.items()
-                  if e.kind == "snaps" and e.tag.get("base") and (pred is None or pred(e.tag)))
+                  if e.kind == "snaps" and e.tag.get("base") and (big or not e.tag.get("huge")) and (pred is None or pred(e.tag)))
 
 
 def pick_base(w, rng, pred=None):
